@@ -8,3 +8,6 @@ Definition stop_id (s : stop) : Z :=
 Definition run_case (c : option nat * list (entry rx * resp) * list ev) : V :=
   let r := run rx rx_search 40 (fst (fst c)) (snd (fst c)) (snd c) in
   VL [vtext (r_out r); vlist vtext (r_sent r); vtext (pend (r_state r)); vnat (length (r_rest r)); VI (stop_id (r_stop r))].
+
+(** job run-args: (timeout given to run()) -> the timeout the spawn object is created with *)
+Definition run_args (g : option (option Z)) : V := vopt (fun z => VI z) (spawn_timeout g).
